@@ -87,6 +87,7 @@ def run_batch(run_seed, base_seed: int, n_runs: int | None, budget_s: float, wor
     def want(k):
         return k % sample_every == 0
 
+    order: dict = {}   # future -> submission index (results arrive in any order; nothing may depend on that order)
     with cf.ProcessPoolExecutor(max_workers=workers, mp_context=ctx) as ex:
         pending = set()
         stop = False
@@ -96,7 +97,9 @@ def run_batch(run_seed, base_seed: int, n_runs: int | None, budget_s: float, wor
             seed = next(gen)
             if len(agg["first_seeds"]) < 8:
                 agg["first_seeds"].append(seed)
-            pending.add(ex.submit(_worker_entry, (run_seed, seed, want(submitted), per_run_timeout)))
+            fut = ex.submit(_worker_entry, (run_seed, seed, want(submitted), per_run_timeout))
+            order[fut] = submitted
+            pending.add(fut)
             submitted += 1
 
         def more() -> bool:
@@ -115,7 +118,8 @@ def run_batch(run_seed, base_seed: int, n_runs: int | None, budget_s: float, wor
                 for f in pending:
                     f.cancel()
                 break
-            for f in done:
+            for f in sorted(done, key=lambda x: order.get(x, 0)):
+                sub_idx = order.pop(f, 0)
                 try:
                     r = f.result()
                 except Exception as e:  # noqa: BLE001  (BrokenProcessPool, worker killed by faulthandler, ...)
@@ -131,9 +135,15 @@ def run_batch(run_seed, base_seed: int, n_runs: int | None, budget_s: float, wor
                     if r.get("nontrivial"):
                         agg["nontrivial_hsigs"].add(r["hsig"])
                 for k, seedspec in (r.get("site_hits") or {}).items():
-                    lst = agg.setdefault("site_hits", {}).setdefault(tuple(k) if not isinstance(k, tuple) else k, [])
-                    if len(lst) < 3:
-                        lst.append(seedspec)
+                    lst = agg.setdefault("_site_hits", {}).setdefault(tuple(k) if not isinstance(k, tuple) else k, [])
+                    lst.append((sub_idx, seedspec))
+                    lst.sort(key=lambda x: x[0])
+                    del lst[3:]
+                for k, ops_ in (r.get("site_ops") or {}).items():
+                    d_ = agg.setdefault("site_ops", {}).setdefault(tuple(k) if not isinstance(k, tuple) else k, {})
+                    for op_ in ops_:
+                        if op_ not in d_ or sub_idx < d_[op_][0]:
+                            d_[op_] = (sub_idx, r["seed"])
                 if r.get("cov_new"):
                     agg.setdefault("cov", set()).update(tuple(k) for k in r["cov_new"])
                 if r.get("sched_sig"):
@@ -146,7 +156,8 @@ def run_batch(run_seed, base_seed: int, n_runs: int | None, budget_s: float, wor
                         stop = True
                 if r.get("violation"):
                     sig = r["violation"]["signature"]
-                    if sig not in agg["violations"]:
+                    if sig not in agg["violations"] or sub_idx < agg["violations"][sig].get("_idx", 0):
+                        r["_idx"] = sub_idx
                         agg["violations"][sig] = r
                     if len(agg["violations"]) >= max_violations:
                         stop = True
@@ -155,6 +166,8 @@ def run_batch(run_seed, base_seed: int, n_runs: int | None, budget_s: float, wor
             if progress and agg["runs"] % 2000 < len(done):
                 progress(agg, time.time() - t0)
     agg["wall"] = time.time() - t0
+    if "_site_hits" in agg:   # the three earliest-submitted seeds per site, whatever order the results came back in
+        agg["site_hits"] = {k: [s_ for _i, s_ in v] for k, v in agg.pop("_site_hits").items()}
     return agg
 
 
